@@ -1496,6 +1496,83 @@ func ruleB3(c *Ctx, id string) {
 			R.Check(grow, id, "inode.Write|size only grows by writing", P.Pos(fw.Instr.Pos()), "the store lies on the side where offset+cnt > Size", "guarded by the comparison with the current size", "a write inside the file lowers its size (or the comparison is with something else): data behind the write disappears from reads")
 		}
 	}
+	// ... and whenever bytes were written: a way from the loop to a return that passes no comparison of
+	// <start + bytes written> with the size takes the side of a test on which the bytes written are 0
+	if wl != nil {
+		lf := wl.head.Parent()
+		var done *cursor
+		for _, q := range headerCursors(wl) {
+			if k, isk := constInt(q.init); isk && k == 0 && q.kind == "+" {
+				if _, isC := constInt(q.step); !isC {
+					done = q
+				}
+			}
+		}
+		if done != nil {
+			type edge struct{ from, to *ssa.BasicBlock }
+			cut := map[edge]bool{}
+			cmpBlocks := map[*ssa.BasicBlock]bool{}
+			for _, br := range branches(lf) {
+				if br.Cond.Y == nil {
+					continue
+				}
+				x, y, op := rv(br.Cond.X), rv(br.Cond.Y), br.Cond.Op
+				if k, isk := constInt(y); isk && k == 0 && x == ssa.Value(done.phi) {
+					switch op {
+					case token.GTR, token.NEQ:
+						cut[edge{br.Block, br.False}] = true
+					case token.EQL, token.LEQ:
+						cut[edge{br.Block, br.True}] = true
+					}
+				}
+				if k, isk := constInt(x); isk && k == 0 && y == ssa.Value(done.phi) && (op == token.LSS || op == token.NEQ) {
+					cut[edge{br.Block, br.False}] = true
+				}
+				// the comparison with the current size
+				isSize := func(v ssa.Value) bool {
+					nn, fl, _, isElem := loadedField(v)
+					return !isElem && nn == V.Inode && fl == "Size"
+				}
+				if (isSize(x) || isSize(y)) && (op == token.GTR || op == token.LSS || op == token.LEQ || op == token.GEQ) {
+					cmpBlocks[br.Block] = true
+				}
+			}
+			bad := false
+			seen := map[*ssa.BasicBlock]bool{}
+			work := []*ssa.BasicBlock{}
+			for _, sx := range wl.head.Succs {
+				if !wl.body[sx] {
+					work = append(work, sx)
+				}
+			}
+			for b := range wl.body {
+				for _, sx := range b.Succs {
+					if !wl.body[sx] {
+						work = append(work, sx)
+					}
+				}
+			}
+			if lf == w {
+				for len(work) > 0 {
+					b := work[len(work)-1]
+					work = work[:len(work)-1]
+					if seen[b] || cmpBlocks[b] {
+						continue
+					}
+					seen[b] = true
+					if _, isR := b.Instrs[len(b.Instrs)-1].(*ssa.Return); isR {
+						bad = true
+					}
+					for _, sx := range b.Succs {
+						if !cut[edge{b, sx}] {
+							work = append(work, sx)
+						}
+					}
+				}
+				R.Check(!bad, id, "inode.Write|a write that copied bytes records its size", P.Pos(w.Pos()), "every way from the copy loop to a return passes the comparison with the current size, or the side of a test on which no byte was written", "size comparison or 'bytes written == 0' on every way out", "a write that copied bytes can return without looking at the size (the test that leads to the update does not cover every count above 0): the bytes are in the block, the size does not cover them - a READ does not return what was written")
+			}
+		}
+	}
 	R.Check(n > 0, id, "inode.Write|records the size", P.Pos(w.Pos()), "Inode.Write stores the new size", fmt.Sprintf("%d stores", n), "no store to Size in Inode.Write")
 	// Resize
 	m := 0
